@@ -33,6 +33,7 @@ type Engine struct {
 	funcs      map[string]*ssa.Function
 	loadErrs   []string
 	keyHints   map[string]Sort
+	globalInit map[*ssa.Global]bool
 }
 
 func (e *Engine) stringID(s string) int {
